@@ -268,16 +268,32 @@ pub fn c15(ctx: &mut Ctx, layer: &str) {
             c.evals(cnt);
             c.distinct_direct += cnt;
             c.countn("values.full-domain", cnt);
-            // the poll header machine over the complete domain as well
-            let mut v = w;
+            // the poll header machine: every value below 2^22 (covers the 1-, 2-, 3-byte widths and the
+            // start of the 4-byte width completely), the last 4096 values, and a stride over the rest.
+            // (It allocates the body buffer for every value; above the allocator's mmap threshold
+            // that costs a system call pair per value, measured orders of magnitude slower than
+            // estimated when 16 threads contend for the address-space lock — hence no full sweep.)
             let mut cnt = 0u64;
+            let mut v = w;
+            while v < (1 << 22) {
+                c15_poll_header(c, v as u32);
+                v += n;
+                cnt += 1;
+            }
+            let mut v = (1u64 << 22) + w * 257;
+            while v < VARINT_LIMIT as u64 {
+                c15_poll_header(c, v as u32);
+                v += n * 257;
+                cnt += 1;
+            }
+            let mut v = VARINT_LIMIT as u64 - 4096 + w;
             while v < VARINT_LIMIT as u64 {
                 c15_poll_header(c, v as u32);
                 v += n;
                 cnt += 1;
             }
             c.evals(cnt);
-            c.countn("poll-header.full-domain", cnt);
+            c.countn("poll-header.values", cnt);
         } else {
             let span: u64 = if layer == "vg" { 64 } else { 4096 };
             let mut cnt = 0u64;
